@@ -175,4 +175,61 @@ theorem lookup_replaceRange (ol : OrdLaws cmp) {l ins : List KV} (sl : Sorted cm
       exact ⟨(by intro a' h; cases h; exact h2.1), h1.1⟩
     · exact hins
 
+/-- the pairs a range patch inserts -/
+def Patch.ins (p : Patch) : List KV := match p.to? with | some (.sub _ t) => t.flatten | _ => []
+
+theorem applyPatch_range_eq (p : Patch) (hp : p.level ≠ 0) (l : List KV) :
+    applyPatch cmp l p = replaceRange cmp p.keyBelowStart p.endKey p.ins l := by
+  have hb : (p.level == 0) = false := by simpa using hp
+  unfold applyPatch Patch.ins
+  simp only [hb, Bool.false_eq_true, if_false]
+  cases p.to? with
+  | none => rfl
+  | some v => cases v <;> rfl
+
+/-- one range patch on a sorted content (Lemmas-level form of `C14.range_patch_lookup`) -/
+theorem range_patch_lookup' (ol : OrdLaws cmp) (p : Patch) (hp : p.level ≠ 0) {l : List KV} (sl : Sorted cmp l)
+    (hlohi : ∀ a, p.keyBelowStart = some a → cmp a p.endKey ≠ .gt)
+    (hins : ∀ x ∈ p.ins, (∀ a, p.keyBelowStart = some a → cmp a x.1 = .lt) ∧ cmp x.1 p.endKey ≠ .gt) (k : Bytes) :
+    lookupKV cmp k (applyPatch cmp l p) =
+      if (∀ a, p.keyBelowStart = some a → cmp a k = .lt) ∧ cmp k p.endKey ≠ .gt then lookupKV cmp k p.ins
+      else lookupKV cmp k l := by
+  rw [applyPatch_range_eq p hp]
+  exact lookup_replaceRange ol sl p.keyBelowStart p.endKey hlohi hins k
+
+/-- a range patch keeps the content strictly ascending -/
+theorem sorted_replaceRange (ol : OrdLaws cmp) {l ins : List KV} (sl : Sorted cmp l) (si : Sorted cmp ins) (lo : Option Bytes) (hi : Bytes)
+    (hins : ∀ x ∈ ins, (∀ a, lo = some a → cmp a x.1 = .lt) ∧ cmp x.1 hi ≠ .gt) :
+    Sorted cmp (replaceRange cmp lo hi ins l) := by
+  cases lo with
+  | none =>
+    have e : replaceRange cmp none hi ins l = ins ++ l.dropWhile (leKey cmp hi) := by
+      simp only [replaceRange, takeWhile_false, dropWhile_false]; rfl
+    rw [e]
+    refine List.pairwise_append.mpr ⟨si, List.Pairwise.sublist (List.dropWhile_sublist _) sl, ?_⟩
+    intro x hx y hy
+    exact le_lt_lt ol (hins x hx).2 (mem_dropWhile_le ol hi sl hy).1
+  | some a =>
+    have hsub : (l.dropWhile (leKey cmp a)).Sublist l := List.dropWhile_sublist _
+    have hrest : Sorted cmp (l.dropWhile (leKey cmp a)) := List.Pairwise.sublist hsub sl
+    have e : replaceRange cmp (some a) hi ins l =
+        l.takeWhile (leKey cmp a) ++ (ins ++ (l.dropWhile (leKey cmp a)).dropWhile (leKey cmp hi)) := by
+      have e0 : replaceRange cmp (some a) hi ins l =
+          l.takeWhile (leKey cmp a) ++ ins ++ (l.dropWhile (leKey cmp a)).dropWhile (leKey cmp hi) := rfl
+      rw [e0, List.append_assoc]
+    rw [e]
+    have hafter : Sorted cmp ((l.dropWhile (leKey cmp a)).dropWhile (leKey cmp hi)) :=
+      List.Pairwise.sublist (List.dropWhile_sublist _) hrest
+    refine List.pairwise_append.mpr ⟨List.Pairwise.sublist (List.takeWhile_sublist _) sl, ?_, ?_⟩
+    · refine List.pairwise_append.mpr ⟨si, hafter, ?_⟩
+      intro x hx y hy
+      exact le_lt_lt ol (hins x hx).2 (mem_dropWhile_le ol hi hrest hy).1
+    · intro x hx y hy
+      have hxa : cmp x.1 a ≠ .gt := by simpa [leKey] using (mem_takeWhile_p hx).1
+      simp at hy
+      rcases hy with hy | hy
+      · exact le_lt_lt ol hxa ((hins y hy).1 a rfl)
+      · have h1 := mem_dropWhile_le ol hi hrest hy
+        exact le_lt_lt ol hxa (mem_dropWhile_le ol a sl h1.2).1
+
 end DoltVerif.ProllyMerge
